@@ -165,6 +165,9 @@ func valEqualSyntactic(a, b Val) bool {
 	case VHeapMap:
 		y, ok := b.(VHeapMap)
 		return ok && x == y
+	case VRegex:
+		y, ok := b.(VRegex)
+		return ok && x == y
 	case VFuncChoice:
 		y, ok := b.(VFuncChoice)
 		return ok && strings.Join(x.Conds, ",") == strings.Join(y.Conds, ",") && strings.Join(x.Keys, ",") == strings.Join(y.Keys, ",")
